@@ -15,7 +15,7 @@ Not decided: that the store returns what it was asked for (trusted interface).
 import re
 
 from .. import mir
-from ..common import CallGraph, call_matches, is_derive, site_in_derive, with_closures
+from ..common import CallGraph, call_matches, is_derive, site_in_derive, with_closures, bool_return_leaves
 from ..engine import Result, ok, finding, assumption, where
 from ..facts import BrokenCheck
 from . import c17
@@ -158,6 +158,7 @@ def s_ignore(F, res):
         raise BrokenCheck("select_input no longer calls fetch_utxos")
     filt_fields = set()
     value_dependent = set()
+    wrong_polarity = []
     good3 = True
     for bi, t in fu:
         src = mir.provenance(b, du, t["args"][1])
@@ -174,6 +175,15 @@ def s_ignore(F, res):
                                 fld = _field_of(mir.provenance(b, du, o), fields)
                                 if fld:
                                     capt[i] = fld
+                            leaves = bool_return_leaves(F, g, follow=lambda r: r.startswith(SELP))
+                            polarity = None
+                            if leaves is not None:
+                                for sign, t2, g2 in leaves:
+                                    if (t2.get("callee") or "").split("::")[-1] in MEMBER_READS:
+                                        polarity = sign
+                            if polarity is not None and polarity > 0:
+                                wrong_polarity.append(z.rv["closure"])
+                                continue
                             for a in accesses(F, g, fields, 1, owner_capt=capt):
                                 if a.kind == "member":
                                     here.add(a.field)
@@ -185,7 +195,7 @@ def s_ignore(F, res):
     if good3:
         res.add([ok("S-IGNORE", key3, where(b), "fetch_utxos(take(..).into_iter().filter(<membership test on self.%s>).collect())" % "/".join(sorted(filt_fields)))])
     else:
-        res.add([finding("S-IGNORE", key3, where(b), "the refs handed to the store are not filtered through the selector's memory of taken refs: a UTxO taken by an earlier block can be offered again")])
+        res.add([finding("S-IGNORE", key3, where(b), "the refs handed to the store are not filtered through the selector's memory of taken refs%s: a UTxO taken by an earlier block can be offered again" % (" (the filter *keeps* the refs that are members instead of dropping them)" if wrong_polarity else ""))])
     track = filt_fields or set(fields)
     # (a) the remembering fields only ever grow, and a mark once set keeps excluding
     touched = []
